@@ -65,14 +65,15 @@ def checkChannel (x : Arg α) : Option α :=
   | .pct => some (x.v * 255 / 100)
   | _ => some x.v
 
-/-- functions/color/mod.rs `check_alpha`: absent → 1; unitless → `v * (1/1)`; `%` → `v * ((1/100)/1)`
-(`Numeric::as_unit(Unit::None)` multiplies by the ratio of the scale factors) -/
+/-- functions/color/mod.rs `check_alpha` (since 662f413): absent → 1; unitless → the value;
+`%` → `value / 100.` (before that commit the code went through `Numeric::as_unit(Unit::None)`,
+i.e. `value * 0.01`, which differs from `value / 100` in the last bit for some values) -/
 def checkAlpha : Option (Arg α) → Option α
   | none => some 1
   | some x =>
     match x.u with
-    | .none => some (x.v * ((1 : α) / 1))
-    | .pct => some (x.v * (((1 : α) / 100) / 1))
+    | .none => some x.v
+    | .pct => some (x.v / 100)
     | .deg => none
 
 /-- functions/color/mod.rs `check_hue` / hwb.rs `check_hue`: unitless as is, `deg` times 1 -/
